@@ -812,6 +812,14 @@ bool qstr_is_email(const char *email) {
     return true;
 }
 
+// true if s is a decimal number between 0 and 255 (1 to 3 digits).
+static bool _is_ip4addr_octet(const char *s) {
+    size_t len = strlen(s);
+    if (len == 0 || len > 3 || qstrtest(isdigit, s) == false)
+        return false;
+    return (atoi(s) <= 255);
+}
+
 /**
  * Test for an IPv4 address string
  *
@@ -827,6 +835,8 @@ bool qstr_is_email(const char *email) {
  */
 bool qstr_is_ip4addr(const char *str) {
     char *dupstr = strdup(str);
+    if (dupstr == NULL)
+        return false;
 
     char *s1, *s2;
     int periodcnt;
@@ -834,17 +844,16 @@ bool qstr_is_ip4addr(const char *str) {
             s1 = s2 + 1, periodcnt++) {
         *s2 = '\0';
 
-        int n;
-        if (qstrtest(isdigit, s1) == false || (n = atoi(s1)) <= 0 || n >= 256) {
+        if (_is_ip4addr_octet(s1) == false) {
             free(dupstr);
             return false;
         }
     }
 
+    // s1 points the last octet.
+    bool valid = (periodcnt == 3 && _is_ip4addr_octet(s1));
     free(dupstr);
-    if (periodcnt != 3)
-        return false;
-    return true;
+    return valid;
 }
 
 #ifdef __linux__
